@@ -18,6 +18,8 @@ class Ctx:
 # ------------------------------------------------------------------------------ stage 1: translate
 
 def translate():
+    import gen_spec
+    gen_spec.main()      # the frozen tables under /verif/spec rendered into Spec/*.lean (idempotent; not derived from /repo)
     p = subprocess.run([PY, "-W", "ignore", os.path.join(VERIF, "harness", "translate.py")], capture_output=True, text=True,
                        env=dict(os.environ, PYTHONPATH=REPO))
     ok = p.returncode == 0
